@@ -21,6 +21,9 @@ R16.e  edge blocks enumerate all their pairs: machine/job node loops over the
 R16.f  no truthiness test on an id (0 is a valid node/operation/machine id).
 R16.g  ``JobShopGraph.add_edge`` adds (or overwrites) the edge with its
        attributes on every non-raising path.
+R16.h  no function of these modules modifies the object of a mutable default
+       argument (directly, through a local alias, or with ``+=``): the result
+       of a call must not depend on earlier calls.
 """
 
 from __future__ import annotations
@@ -45,6 +48,7 @@ MANIFEST = {
         "sequence; ids are never tested for truthiness; add_edge always writes "
         "the edge. Not decided: the edge sets as values, acyclicity and "
         "critical-path length of the solved graph."
+        " Also decided: no function of these modules accumulates into a mutable default argument."
     ),
     "note": "networkx's DiGraph semantics (add_edge overwrites attributes) are trusted.",
     "technique": "call-pair matching, must-call / must-not-call composition tables, loop-shape matching, typed truthiness lint",
@@ -126,6 +130,25 @@ def run(ctx):
         # composition is judged on the original call list
         fn[name] = raw[name] if name in COMPOSITION and name != "build_solved_disjunctive_graph" else ctx.norm.flat(raw[name], depth=4)
 
+    # ---------------------------------------------------------------- R16.h
+    from .common import mutated_mutable_defaults
+
+    chk.rule("R16.h", "no graph builder accumulates into a mutable default argument (the graph of one call must not depend on earlier calls)")
+    hits, n_def = mutated_mutable_defaults(ctx, ("job_shop_lib.graphs",))
+    seen_h = set()
+    for fi_, pname, w in hits:
+        if (fi_.qualname, pname, id(w.event.node)) in seen_h:
+            continue
+        seen_h.add((fi_.qualname, pname, id(w.event.node)))
+        chk.violation(
+            "R16.h", fi_, w.event.node,
+            f"`{w.event.data.get('text')}` modifies the object of the mutable default argument `{pname}`: it is created once, so the "
+            "nodes/edges collected in one call are still in it in the next call and are added to that graph as well",
+            loc=w.loc,
+        )
+    if not hits:
+        chk.ok("R16.h", "job_shop_lib.graphs", "", f"{n_def} mutable default arguments in the graph modules, none is modified")
+
     # ---------------------------------------------------------------- R16.a
     for name in UNDIRECTED:
         f = fn[name]
@@ -133,7 +156,8 @@ def run(ctx):
         if not calls:
             chk.violation("R16.a", f, None, f"{name} adds no edge at all")
             continue
-        pairs = [(ast.unparse(c.args[0]), ast.unparse(c.args[1]), _kw(c), c) for c in calls if len(c.args) >= 2]
+        # endpoints with single-definition locals expanded (`tail, head = (u, v)`)
+        pairs = [(ctx.norm.xtext(f, c.args[0]), ctx.norm.xtext(f, c.args[1]), _kw(c), c) for c in calls if len(c.args) >= 2]
         unmatched = []
         for a, b, kw, c in pairs:
             if not any(a2 == b and b2 == a and kw2 == kw for a2, b2, kw2, _ in pairs):
@@ -498,6 +522,8 @@ def _solved_pairs(ctx, sg, arc):
     elif it in ("zip(machine_schedule,machine_schedule[1:])", "itertools.pairwise(machine_schedule)", "pairwise(machine_schedule)"):
         t = inner.target
         direct = isinstance(sg.module.parents.get(sg.module.parents.get(arc)), ast.For)
+        # endpoints bound to locals first (`tail, head = (cur.…id, nxt.…id)`) are expanded
+        a, b = ctx.norm.xtext(sg, arc.args[0]), ctx.norm.xtext(sg, arc.args[1])
         ok = isinstance(t, ast.Tuple) and a.startswith(t.elts[0].id + ".") and b.startswith(t.elts[1].id + ".") and direct
     else:
         # a previous-variable formulation: every arc must be unconditional
@@ -565,6 +591,26 @@ def _node_ids(ctx):
     if not assign or ctx.norm.xtext(addn, assign[0].value) != C or not inc or pos(inc[0]) < pos(assign[0]):
         ok = False
         chk.violation("R16.d", addn, assign[0] if assign else None, "add_node does not assign the current counter value before advancing it: node ids do not start at 0")
+    # every node consumes exactly one id: on each non-raising path of add_node
+    # (private steps inlined) the counter is advanced once
+    attr_c = C.split(".", 1)[1]
+    eng = ctx.engine(
+        relevant=lambda e: e.kind == "write" and not e.data.get("local"), max_depth=3,
+        inline_filter=lambda t: t.cls is not None and t.cls.qualname in g.mro and t.name.startswith("_"),
+    )
+    for p in eng.paths(addn_raw, g):
+        if p.outcome == "raise":
+            continue
+        steps = [e for e in p.events if e.kind == "write" and not e.data.get("local") and (e.data.get("chain") or [None])[0] == attr_c and e.data.get("root") == "self"]
+        if len(steps) != 1:
+            ok = False
+            chk.violation(
+                "R16.d", addn_raw, steps[0].node if steps else None,
+                f"a path through add_node advances the node id counter {len(steps)} times: ids are only consecutive (and equal to "
+                "the position in `nodes`) if every added node consumes exactly one",
+                path=p.describe(),
+            )
+            break
     # removed_nodes grows with every node
     if not any(isinstance(n, ast.Call) and ctx.norm.xtext(addn, n.func) == "self.removed_nodes.append" and ast.unparse(n.args[0]) == "False" for n in own_nodes(addn.node)):
         ok = False
